@@ -1,5 +1,6 @@
 import RQ.Driver.ApplyEngine
 import RQ.Driver.DistEngine
+import RQ.Driver.PathEngine
 open RQ
 
 def step (line : String) : String :=
@@ -7,6 +8,7 @@ def step (line : String) : String :=
   match fields.head? with
   | some "A" => ApplyEngine.step fields
   | some "D" => DistEngine.step fields
+  | some "P" => PathEngine.step fields
   | some "T" => ApplyEngine.stepT fields
   | _ => "bad-op"
 
